@@ -51,6 +51,11 @@ func (td TypeDeclaration) CompletionAtPos(ctx context.Context, pos hcl.Pos) []la
 		// position in (or at the end of) complex type name
 		if eType.NameRange.ContainsPos(pos) || eType.NameRange.End.Byte == pos.Byte {
 			prefixLen := pos.Byte - eType.NameRange.Start.Byte
+			if prefixLen > len(eType.Name) {
+				// the name range may be longer than the name itself,
+				// e.g. when whitespace surrounds a namespace separator
+				prefixLen = len(eType.Name)
+			}
 			prefix := eType.Name[0:prefixLen]
 
 			editRange := eType.Range()
